@@ -104,6 +104,7 @@ type histCase struct {
 	Ops      []sim.Op       `json:"ops"`
 	Faults   []*sim.FaultPlan `json:"faults,omitempty"` // per op (nil = none)
 	Mode     string         `json:"mode"`
+	Saturate []bool         `json:"saturate_pool_pattern,omitempty"` // C20 small-pool batches: which realloc / set-node ops run under a saturated pool
 	FailedAt int            `json:"failed_at_op"`
 	Events   []string       `json:"events_of_failing_op,omitempty"`
 }
